@@ -72,6 +72,14 @@ def frameMutationQubits (body : List Instr) : Bool :=
         && l.any (fun q => match q with | .var _ => false | _ => true)
     | _ => false
 
+/-- base-label shape of the body's label placeholders (distribution tag) -/
+def baseTag (body : List Instr) : String :=
+  let ps := targetPlaceholders (getTargets body)
+  let empties := (ps.filter (fun p => p.2 == "")).length
+  if empties ≥ 2 then "empty-base-shared" else if empties == 1 then "empty-base"
+  else if ps.any (fun p => p.2.length == 1) then "one-char-base"
+  else if ps.any (fun p => p.2.length > 100) then "long-base" else "ordinary-bases"
+
 def handleOne (inp out : Sexp) : CaseResult :=
   match inp with
   | .list [.atom "resolve", .atom ms, bs, tms, qms] =>
@@ -108,7 +116,7 @@ def handleOne (inp out : Sexp) : CaseResult :=
           (fun p => (fixedLabels (getTargets body)).contains (labelName p.2 0))
         let tags := [s!"mode-{ms}", s!"len{min body.length 14}", s!"qph{min nPhQ 5}", s!"tph{min nPhT 5}",
             s!"fixedq{min (usedFixedQubits body).length 6}",
-            (if collide then "suffix-collision" else "no-collision"),
+            (if collide then "suffix-collision" else "no-collision"), baseTag body,
             (if hid then "frame-mutation-qubits" else "no-frame-mutation-qubits"),
             s!"dq{min dq.length 5}"]
           ++ (if !skel then ["SKELETON-FAIL"] else [])
@@ -181,7 +189,7 @@ def handleSeq (inp out : Sexp) : CaseResult :=
                 (qubitPlaceholders body).any (fun k => (lookupN k c1.qmap).isNone) &&
                 (qubitPlaceholders body).any (fun k => (lookupN k c1.qmap).isSome)
             | [] => false
-          let tags := ["seq", s!"calls-{modes}", s!"len{min body.length 14}",
+          let tags := ["seq", baseTag body, s!"calls-{modes}", s!"len{min body.length 14}",
               (if noFixed then "body-no-fixed-qubits" else "body-has-fixed-qubits"),
               (if defFixed then "defs-have-fixed-qubits" else "defs-no-fixed-qubits"),
               (if partialThenDefault then "partial-custom-then-default" else "other-sequence")]
@@ -241,7 +249,7 @@ def handleTables (inp out : Sexp) : CaseResult :=
         | _ => false
       { agree := mOut == out && wellProjectedB body, specOk := specOk,
         nontrivial := tq.length + qq.length > 2,
-        tags := ["tables", s!"tq{min tq.length 6}", s!"qq{min qq.length 6}",
+        tags := ["tables", baseTag body, s!"tq{min tq.length 6}", s!"qq{min qq.length 6}",
           (if tq.length + qq.length > 64 then "more-than-64-placeholders" else "few-placeholders")],
         detail := s!"model={mOut} impl={out}" }
     | _, _, _ => .bad s!"undecodable input {inp}"
